@@ -5,7 +5,7 @@
 //! the set of channels in use; refusals must be local (no frame).
 //! Variant "idle": generated local/remote idle time-outs and traffic timelines over virtual time
 //! (exact under the paused clock), with optional periods in which the peer does not read.
-use crate::driver::{guarded, panic_signature, pt_run, Obs, PropMeta, Report, ShardCtx, MAX_SHRINK_ITERS};
+use crate::driver::{guarded, hash_of, panic_signature, pt_run, PropMeta, Report, ShardCtx, Tier, Violation, MAX_SHRINK_ITERS};
 use crate::peer::Peer;
 use crate::rframe::{self, RFrame};
 use crate::simnet::{self, CaseEnd, PipeCfg};
@@ -25,7 +25,7 @@ pub fn meta() -> PropMeta {
     PropMeta {
         id: "C17",
         level: "exploration",
-        rule: "(a) channel-max: a real client or listener with a generated local channel-max (0..65535, edge-weighted) opens towards a scripted peer advertising a generated channel-max; a generated history of begin / end operations (up to 24, so the agreed limit is reached and passed for small limits, with reuse after end) runs step-wise. Oracle: every begin frame the endpoint writes is on a channel <= min(local, remote) that no live session of the endpoint uses; begin succeeds whenever a channel within the limit is free and fails locally, without writing a frame, when none is. (b) idle time-outs: generated local idle time-out (unset, 0, 20..1000 ms) and peer-advertised idle time-out (unset, 0, 1..100000 ms) with a generated timeline of gaps (0, 1, L-1, L, L+1, R-1, R, R+1, 3L ... ms of virtual time) separated by peer frames (empty frame, flow), application traffic (begin/end of a session) or periods in which the peer writes every 'every' ms but does not read (small pipe: the endpoint is back-pressured). Oracle on exact virtual time: while the connection is open and the endpoint is not back-pressured, consecutive frames written by the endpoint are never more than R apart; the endpoint reports IdleTimeoutElapsed to the application (on_close) no earlier than L after the peer's last frame and no later than L after the later of that frame and the end of the last back-pressure period, and never while peer frames keep arriving with gaps below L; when no time-out is due the connection is alive at the end and closes cleanly. Non-trivial: (a) the limit was reached or a channel was reused; (b) a time-out was due, or a gap within 1 ms of L or R occurred, or a back-pressure period occurred — distinct by hash of the case.",
+        rule: "(a) channel-max: a real client or listener with a generated local channel-max (0..65535, edge-weighted) opens towards a scripted peer advertising a generated channel-max; a generated history of begin / end operations (up to 24, so the agreed limit is reached and passed for small limits, with reuse after end) runs step-wise. Oracle: every begin frame the endpoint writes is on a channel <= min(local, remote) that no live session of the endpoint uses; begin succeeds whenever a channel within the limit is free and fails locally, without writing a frame, when none is. (a') the top of the range: with channel-max 65535 on both sides (thorough: also 65534 / 40000 on either side) a client begins sessions until it is refused — exactly agreed+1 sessions on pairwise distinct channels, the next begin refused without a frame, and after one session ended a begin succeeds again on a free channel. (b) idle time-outs: generated local idle time-out (unset, 0, 20..1000 ms) and peer-advertised idle time-out (unset, 0, 1..100000 ms) with a generated timeline of gaps (0, 1, L-1, L, L+1, R-1, R, R+1, 3L ... ms of virtual time) separated by peer frames (empty frame, flow), application traffic (begin/end of a session) or periods in which the peer writes every 'every' ms but does not read (small pipe: the endpoint is back-pressured). Oracle on exact virtual time: while the connection is open and the endpoint is not back-pressured, consecutive frames written by the endpoint are never more than R apart; the endpoint reports IdleTimeoutElapsed to the application (on_close) no earlier than L after the peer's last frame and no later than L after the later of that frame and the end of the last back-pressure period, and never while peer frames keep arriving with gaps below L; when no time-out is due the connection is alive at the end and closes cleanly. Non-trivial: (a) the limit was reached or a channel was reused; (b) a time-out was due, or a gap within 1 ms of L or R occurred, or a back-pressure period occurred — distinct by hash of the case.",
         assumptions: &["virtual time (tokio paused clock): timer expiry and frame arrival are exact, so bounds are checked with 1 ms slack only", "the peer honours the agreed channel-max itself (peer violations are C15)"],
         nontrivial_floor: 0.3,
         run,
@@ -630,6 +630,136 @@ fn run_sync<T>(seed: u64, fut: impl std::future::Future<Output = Result<T, Strin
     }
 }
 
+// ---------------------------------------------------------------------------
+// (a') channel-max at the top of the range: every channel up to the agreed maximum is taken
+
+#[derive(Clone, Debug, Serialize, Deserialize, Hash)]
+pub struct CaseF {
+    pub local_cm: u16,
+    pub remote_cm: u16,
+    /// which live session is ended before the final begin (scaled index)
+    pub end_pick: u16,
+    pub tokio_seed: u64,
+}
+
+/// A real client begins sessions until it is refused: exactly agreed+1 sessions on pairwise distinct
+/// channels <= agreed; one more is refused locally without a frame; after one session ended a begin
+/// succeeds again on a channel that no live session uses.
+pub async fn run_full(c: &CaseF) -> Result<u32, String> {
+    let (conn, mut peer, _ctl) = open_pair(0, Some(c.local_cm), None, Some(c.remote_cm), None, PipeCfg { cap: 1 << 22, ..PipeCfg::default() }).await?;
+    let mut cn = match conn.map_err(|e| format!("open failed: {e}"))? {
+        ConnH::C(c) => c,
+        ConnH::L(_) => unreachable!(),
+    };
+    let agreed = c.local_cm.min(c.remote_cm) as u32;
+    let mut used: std::collections::HashMap<u16, u16> = std::collections::HashMap::new(); // endpoint channel -> peer channel
+    let mut sessions: Vec<(u16, SessionHandle<()>)> = Vec::new();
+    let _ = peer.new_frames().await;
+    for i in 0..=(agreed + 1) {
+        let expect_ok = i <= agreed;
+        let pch = i as u16;
+        let fut = Session::builder().buffer_size(8).begin(&mut cn);
+        let pa = async {
+            let fs = peer.new_frames().await;
+            let begins: Vec<RFrame> = fs.into_iter().filter(|f| f.name() == "begin").collect();
+            if expect_ok {
+                for b in &begins {
+                    peer.send_frame(pch, &Peer::begin_body(Some(b.channel), 0, 2048, 2048, None), &[]).await?;
+                }
+            }
+            Ok::<Vec<RFrame>, String>(begins)
+        };
+        let (r, begins) = if expect_ok {
+            tokio::join!(fut, pa)
+        } else {
+            // a begin that is (wrongly) written must not be answered and must not hang the case
+            tokio::pin!(fut);
+            let begins = tokio::select! {
+                biased;
+                r = &mut fut => { let b = peer.new_frames().await.into_iter().filter(|f| f.name() == "begin").collect::<Vec<_>>(); (Some(r), Ok(b)) }
+                b = pa => (None, b),
+            };
+            match begins {
+                (Some(r), b) => (r, b),
+                (None, b) => {
+                    let b = b.map_err(|e| format!("HARNESS: {e}"))?;
+                    if let Some(f) = b.first() {
+                        return Err(format!(
+                            "begin #{} was written on channel {} although all {} channels up to the agreed channel-max {agreed} carry live sessions (local channel-max {}, peer channel-max {}); channel {} {}",
+                            i + 1,
+                            f.channel,
+                            agreed + 1,
+                            c.local_cm,
+                            c.remote_cm,
+                            f.channel,
+                            if used.contains_key(&f.channel) { "is still in use by a live session" } else { "is above the limit" }
+                        ));
+                    }
+                    return Err(format!("begin #{} neither completed nor wrote a frame although no channel is free", i + 1));
+                }
+            }
+        };
+        let begins = begins.map_err(|e| format!("HARNESS: {e}"))?;
+        for b in &begins {
+            if b.channel as u32 > agreed {
+                return Err(format!("a begin was written on channel {} above the agreed channel-max {agreed} (local channel-max {}, peer channel-max {})", b.channel, c.local_cm, c.remote_cm));
+            }
+            if used.contains_key(&b.channel) {
+                return Err(format!("begin #{} was written on channel {} which a live session still uses ({} live sessions, agreed channel-max {agreed})", i + 1, b.channel, used.len()));
+            }
+        }
+        match (r, begins.first(), expect_ok) {
+            (Ok(s), Some(b), true) => {
+                used.insert(b.channel, pch);
+                sessions.push((b.channel, s));
+            }
+            (Err(_), None, false) => {}
+            (Ok(_), _, false) | (_, Some(_), false) => return Err(format!("a session was begun although every channel up to the agreed channel-max {agreed} is in use ({} live sessions)", used.len())),
+            (Err(e), _, true) => return Err(format!("begin #{} was refused ({e:?}) although a channel within the agreed channel-max {agreed} is free ({} live sessions)", i + 1, used.len())),
+            (Ok(_), None, true) => return Err(format!("begin #{} completed without a begin frame on the wire", i + 1)),
+        }
+    }
+    if used.len() as u32 != agreed + 1 {
+        return Err(format!("{} sessions live, expected {}", used.len(), agreed + 1));
+    }
+    // end one session, then a begin succeeds again
+    let k = (c.end_pick as usize * sessions.len()) >> 16;
+    let (ech, mut s) = sessions.swap_remove(k);
+    let pch = used.remove(&ech).unwrap();
+    let pa = async {
+        let e = peer.wait_for("end").await?;
+        if e.channel != ech {
+            return Err(format!("end written on channel {} for the session begun on channel {ech}", e.channel));
+        }
+        peer.send_frame(pch, &Peer::end_body(None), &[]).await
+    };
+    let (r, p) = tokio::join!(s.end(), pa);
+    p?;
+    r.map_err(|e| format!("end of the session on channel {ech} failed: {e:?}"))?;
+    drop(s);
+    let fut = Session::builder().buffer_size(8).begin(&mut cn);
+    let pa = async {
+        let fs = peer.new_frames().await;
+        let begins: Vec<RFrame> = fs.into_iter().filter(|f| f.name() == "begin").collect();
+        for b in &begins {
+            peer.send_frame(pch, &Peer::begin_body(Some(b.channel), 0, 2048, 2048, None), &[]).await?;
+        }
+        Ok::<Vec<RFrame>, String>(begins)
+    };
+    let (r, begins) = tokio::join!(fut, pa);
+    let begins = begins.map_err(|e| format!("HARNESS: {e}"))?;
+    match (r, begins.first()) {
+        (Ok(_s), Some(b)) => {
+            if b.channel as u32 > agreed || used.contains_key(&b.channel) {
+                return Err(format!("after a session ended, the next begin was written on channel {} (agreed channel-max {agreed}; in use: {})", b.channel, used.contains_key(&b.channel)));
+            }
+        }
+        (Err(e), _) => return Err(format!("after a session ended (channel {ech} free again) begin was refused: {e:?}")),
+        (Ok(_), None) => return Err("begin completed without a begin frame".into()),
+    }
+    Ok(agreed + 1)
+}
+
 fn sig(e: &str) -> String {
     if e.starts_with("HANG") {
         "hang".into()
@@ -689,6 +819,35 @@ fn run(ctx: &ShardCtx, rep: &mut Report) {
             Err(format!("panic: {}", p.join(" | ")))
         }
     });
+    // (a') the top of the range: fixed cases spread over the shards (quick: the full range once)
+    let full: Vec<CaseF> = match ctx.tier {
+        Tier::Quick => vec![CaseF { local_cm: 65535, remote_cm: 65535, end_pick: (ctx.seed as u16).wrapping_mul(40503), tokio_seed: ctx.seed }],
+        Tier::Thorough => vec![
+            CaseF { local_cm: 65535, remote_cm: 65535, end_pick: (ctx.seed as u16).wrapping_mul(40503), tokio_seed: ctx.seed },
+            CaseF { local_cm: 65535, remote_cm: 65534, end_pick: 0, tokio_seed: ctx.seed ^ 1 },
+            CaseF { local_cm: 65534, remote_cm: 65535, end_pick: 65535, tokio_seed: ctx.seed ^ 2 },
+            CaseF { local_cm: 40000, remote_cm: 65535, end_pick: 12345, tokio_seed: ctx.seed ^ 3 },
+        ],
+    };
+    for (i, c) in full.iter().enumerate() {
+        if (i as u32 + 3) % ctx.nshards != ctx.shard {
+            continue;
+        }
+        ctx.journal("channel-max-full", &serde_json::to_value(c).unwrap());
+        rep.evaluations += 1;
+        match guarded(|| run_sync(c.tokio_seed, run_full(c))) {
+            Ok(Ok(n)) => {
+                rep.class("a':every-channel-in-use");
+                rep.nontrivial.insert(hash_of(c));
+                rep.nontrivial_evals += 1;
+                if rep.samples.len() < 6 {
+                    rep.sample(serde_json::json!({"case": c, "sessions_live_at_refusal": n}));
+                }
+            }
+            Ok(Err(e)) => rep.violations.push(Violation { variant: "channel-max-full".into(), signature: sig(&e), detail: e, case: serde_json::to_value(c).unwrap() }),
+            Err(p) => rep.violations.push(Violation { variant: "channel-max-full".into(), signature: panic_signature(&p[0]), detail: format!("panic: {}", p.join(" | ")), case: serde_json::to_value(c).unwrap() }),
+        }
+    }
     let _ = BTreeMap::<u8, u8>::new();
 }
 
@@ -697,6 +856,9 @@ fn replay(variant: &str, case_json: &Json) -> Result<(), String> {
     let r = if v == "channel-max" {
         let c: CaseA = serde_json::from_value(case_json.clone()).map_err(|e| format!("bad case: {e}"))?;
         guarded(|| run_sync(c.tokio_seed, run_a(&c)).map(|_| ()))
+    } else if v == "channel-max-full" {
+        let c: CaseF = serde_json::from_value(case_json.clone()).map_err(|e| format!("bad case: {e}"))?;
+        guarded(|| run_sync(c.tokio_seed, run_full(&c)).map(|_| ()))
     } else {
         let c: CaseB = serde_json::from_value(case_json.clone()).map_err(|e| format!("bad case: {e}"))?;
         guarded(|| run_sync(c.tokio_seed, run_b(&c)).map(|_| ()))
